@@ -899,6 +899,7 @@ package keyvalue
 //@                     !oncedone(infoRec(info).modeOnce) && !oncedone(infoRec(info).modTimeOnce) && infoRec(info).dataDone == 0)
 //@   ensures "mem-hit" implies(VP(name) && isMem(fs) && kvHas(fs, name), err == nil && infoRec(info).record == kvRec(fs, name))
 //@   ensures "mem-miss" [C01 C05] implies(VP(name) && isMem(fs) && !kvHas(fs, name), errIs(err, hackpadfs.ErrNotExist))
+//@   ensures "below-a-file" [C05 C01] implies(VP(name) && name != "." && isMem(fs) && !kvHas(fs, name) && kvHas(fs, pdir(name)) && !memIsDir(fs, pdir(name)), errIs(err, hackpadfs.ErrNotDir))   // as os: ENOTDIR for a path through a regular file (known finding: ErrNotExist)
 //@   ensures "mem-world" implies(isMem(fs), world() == old(world()))
 //@   ensures "serial" [C14] implies(VP(name) && isSerial(fs), iff(err == nil, old(storeGetErr(fsStore(fs), name)) == nil) && world() == old(storeGetW(fsStore(fs), name)) &&
 //@                     implies(err != nil, innerErr(err) == old(storeGetErr(fsStore(fs), name))))
